@@ -32,6 +32,43 @@ def route(specs, groups, tf, fasta_like=False, cuts=None, ends=None, fr=0):
     keys = [k.lower() for k in outs if k is not None]
     ok = AND(ok, len(keys) == len(set(keys)))
     return FIN(AND(ok, partition_ok(inp, outs)))
+
+
+def file_names(ps0: bool, ps1: bool) -> bool:
+    """
+    post: _
+    """
+    # assembly key -> output file name (pretext_to_asm.name_assemblies), for the three kinds of map:
+    # every removal bin keeps its own file (<root>.<v>.<tag>s), curated assemblies are the only curated ones
+    START()
+    from tola.assembly.scripts import pretext_to_asm as P2A
+    st = [1 if ps0 else -1, 1 if ps1 else -1]
+    ok = True
+    scen = {
+        "single": [("Scaffold_1", [("S1", 1, 75, st[0], ("Painted",))]), ("Scaffold_2", [("S2", 1, 45, st[1], ("Haplotig",))]),
+                   ("Scaffold_3", [("S3", 1, 30, 1, ("FalseDuplicate",))]), ("Scaffold_4", [("S4", 1, 20, 1, ("Contaminant",))])],
+        "two_haplotypes": [("Scaffold_1", [("S1", 1, 75, st[0], ("Painted", "Hap1"))]), ("Scaffold_2", [("S2", 1, 45, st[1], ("Painted", "Hap2"))]),
+                           ("Scaffold_3", [("S3", 1, 30, 1, ("FalseDuplicate", "Hap2"))]), ("Scaffold_4", [("S4", 1, 20, 1, ("Contaminant",))])],
+        "primary": [("Scaffold_1", [("S1", 1, 75, st[0], ("Painted", "Hap1", "Primary"))]), ("Scaffold_2", [("S2", 1, 45, st[1], ("Painted", "Hap2"))]),
+                    ("Scaffold_3", [("S3", 1, 30, 1, ("FalseDuplicate", "Hap2"))]), ("Scaffold_4", [("S4", 1, 20, 1, ("Haplotig", "Hap2"))])],
+    }
+    for kind, groups in scen.items():
+        inp, lay = mk_input([("S1", "FGF", (40, 5, 30)), ("S2", "FF", (20, 25)), ("S3", "F", (30,)), ("S4", "F", (20,))])
+        ba, outs = run_pipeline(inp, mk_pretext(groups, 3))
+        named = P2A.name_assemblies(outs, "spec", "1")
+        names = {k: (a.name, a.curated) for k, a in named.items()}
+        for tagkey, word in (("FalseDuplicate", "falseduplicates"), ("Contaminant", "contaminants")):
+            if tagkey in outs:
+                hit = [v for k, v in names.items() if v[0] == "spec.1." + word]
+                ok = ok and len(hit) == 1 and hit[0][1] is False
+                # and its sequence is in that assembly only
+                a = [x for x in named.values() if x.name == "spec.1." + word][0]
+                ok = ok and all(sc.tag == tagkey for sc in a.scaffolds) and len(a.scaffolds) >= 1
+        for k, a in named.items():
+            if a.curated and a.name.endswith(".primary"):
+                ok = ok and all(sc.tag is None for sc in a.scaffolds)
+        ok = ok and len({v[0] for v in names.values()}) == len(names)        # no two assemblies share a file name
+    return FIN(ok)
 '''
 
 ENC = ("ScaffoldNamer.make_scaffold_name", "ScaffoldNamer.label_scaffold", "ScaffoldNamer.haplotype_from_first_row_name", "ScaffoldNamer.get_set_haplotype",
@@ -78,6 +115,9 @@ def conditions(tier):
     n = "target_two"
     q.append(("target_mode_two_targets", _m(n, three, ((0, 0, 0, 0), [(0, 1, 0), (1, 2, 0), (2, 0, 0)]), [("Target",), (), P + ("Target",)], ps=(-1, 1, 1)), n, 600,
               "Target on scaffolds 1 and 3 of the map, scaffold 2 untagged between them, S4 absent"))
+    n = "target_then_painted"
+    q.append(("target_mode_later_scaffold_painted_without_target", _m(n, three, ((0, 0, 0, 0), [(0, 0, 0), (1, 1, 0), (2, 2, 0)]), [P + ("Target",), P, ("X",)], ps=(1, 1, -1)), n, 600,
+              "Target mode: S1 painted Target, then a scaffold that is Painted but has NO Target tag, then one tagged X without Target: both are contaminant; S4 absent (contaminant)"))
     for tag in ("Haplotig", "FalseDuplicate"):
         n = f"target_then_{tag}"
         q.append((f"target_mode_later_scaffold_tagged_{tag}", _m(n, three, ((0, 0, 0, 0), [(0, 0, 0), (1, 1, 0), (2, 2, 0)]), [P + ("Target",), (tag,), ()], ps=(1, 1, -1)), n, 600,
@@ -92,6 +132,9 @@ def conditions(tier):
     q.append(("two_haplotypes_unplaced_after_tagged", _m(n, haps, ((0, 0, 0, 0, 0), [(0, 0, 0), (1, 1, 0), (2, 2, 0), (3, 4, 0)]),
                                                          [P + ("Hap1",), P + ("Hap2",), (), ()], ps=(-1, 1, 1, 1)), n, 900,
               "as above with the unplaced scaffolds after the tagged ones; scaffold_11 (no haplotype in its name) placed untagged, hap1_scaffold_9 absent"))
+    q.append(("assembly_keys_to_file_names", "", "file_names", 600,
+              "pretext_to_asm.name_assemblies on the outputs of three concrete maps (single haplotype, two haplotypes, Primary mode) with Haplotig / FalseDuplicate / Contaminant pieces (two piece strands symbolic): "
+              "every removal bin keeps its own non-curated file name, no tagged scaffold in a '.primary' assembly, names distinct"))
     src_q = HEAD + "".join(x[1] for x in q)
     for (nm, _, fn, to, bound) in q:
         out.append(Cond(nm, src_q, fn, to, bound, replay="replay_model", encodes=ENC))
